@@ -292,6 +292,10 @@ pub struct PreSpec {
     /// the others, consistently (commitment recomputed), in multi-party toss number `round`
     #[serde(default, skip_serializing_if = "Option::is_none")]
     pub equivocate: Option<Equiv>,
+    /// trusted dealer only: this party submits, as left share of its first AND pair, a share whose
+    /// bit is flipped while the MACs are those of the original bit
+    #[serde(default, skip_serializing_if = "Option::is_none")]
+    pub dealer_cheater: Option<usize>,
 }
 
 #[derive(Clone, Debug, Serialize, Deserialize)]
@@ -341,7 +345,14 @@ impl Task for PreTask {
                     return Ok(Box::new(()) as Box<dyn std::any::Any + Send>);
                 }
                 let ands = s.ands;
-                let pick = move |sh: &[PlainShare]| pick_pairs(sh, ands);
+                let forge = s.dealer_cheater == Some(p);
+                let pick = move |sh: &[PlainShare]| {
+                    let mut pairs = pick_pairs(sh, ands);
+                    if forge && let Some(first) = pairs.first_mut() {
+                        first.0.bit = !first.0.bit;
+                    }
+                    pairs
+                };
                 let (delta, shares, alpha_beta, ands) = pv::dealer_session(ch, n, s.l, &pick).await?;
                 return Ok(Box::new(PreOut {
                     delta,
@@ -526,6 +537,19 @@ fn c10_run(spec: &PreSpec) -> (Vec<Violation>, u64, u64) {
         v.push(viol("deadlock", "deadlock", d.clone(), &sv));
         return (v, res.steps, 0);
     }
+    if let Some(c) = spec.dealer_cheater {
+        // the dealer must refuse: no honest party may be handed AND shares built on the forged input
+        let oks: Vec<(usize, &PreOut)> = res.ends.iter().enumerate().take(spec.n).filter_map(|(p, e)| if let End::Ok(b) = e { b.downcast_ref::<PreOut>().map(|x| (p, x)) } else { None }).collect();
+        if let Some((h, o)) = oks.iter().find(|(p, o)| *p != c && !o.ands.is_empty()) {
+            v.push(viol(
+                "dealer-accepted-forged-share",
+                "dealer-accepted-forged-share",
+                format!("party {c} submitted a left share with a flipped bit and the MACs of the original bit; the dealer answered and honest party {h} holds {} AND shares built on it (n={})", o.ands.len(), spec.n),
+                &sv,
+            ));
+        }
+        return (v, res.steps, oks.len() as u64);
+    }
     let mut outs: Vec<&PreOut> = vec![];
     for (p, e) in res.ends.iter().enumerate().take(spec.n) {
         match e {
@@ -595,7 +619,7 @@ impl Check for C10 {
         "exploration"
     }
     fn rule(&self) -> String {
-        "each evaluation is one simulated execution of the real preprocessing sub-protocols by n in 2..5 parties (coin tossing, fashare of length l in {1,2,7,8,9,127,128,129,1000,1001,5000}, then beaver_aand for l_and in {1,2,3,100,3099,3100} on arbitrary left/right shares incl. x AND x; bucket size 5 and 4; 280000 (bucket 3) once in thorough) or of the trusted-dealer provider (fpre as extra node), under random capacity and schedule; oracle recomputed from plain integers: for all i != j and every index mac_i[j] == key_j[i] ^ (bit_i & delta_j); XOR of AND shares == AND of XORs of the inputs with valid MACs; multi-party and pairwise shared generators in the same state at all parties; distinct = (n, l, l_and, provider) tuples x seeds".into()
+        "each evaluation is one simulated execution of the real preprocessing sub-protocols by n in 2..5 parties (coin tossing, fashare of length l in {1,2,7,8,9,127,128,129,1000,1001,5000}, then beaver_aand for l_and in {1,2,3,100,3099,3100} on arbitrary left/right shares incl. x AND x; bucket size 5 and 4; 280000 (bucket 3) once in thorough) or of the trusted-dealer provider (fpre as extra node), under random capacity and schedule; oracle recomputed from plain integers: for all i != j and every index mac_i[j] == key_j[i] ^ (bit_i & delta_j); XOR of AND shares == AND of XORs of the inputs with valid MACs; multi-party and pairwise shared generators in the same state at all parties; trusted dealer against a party (every index, n in 2..5) that submits a left share with a flipped bit and the MACs of the original bit: no honest party may be handed AND shares; distinct = (n, l, l_and, provider) tuples x seeds".into()
     }
     fn assumptions(&self) -> Vec<String> {
         vec!["all parties honest; the relations are checked on the outputs handed to the online phase".into()]
@@ -630,6 +654,16 @@ impl Check for C10 {
             v.push(json!({"seed": seed, "k": k, "n": 2, "l": 8, "ands": 280000, "dealer": false}));
             k += 1;
         }
+        // trusted dealer against a party that submits a forged share (every index, n in 2..5)
+        for n in 2..=5usize {
+            for c in 0..n {
+                if tier == Tier::Quick && n == 5 && c % 2 == 1 {
+                    continue;
+                }
+                v.push(json!({"seed": seed, "k": k, "n": n, "l": 6, "ands": 2, "dealer": true, "dealer_cheater": c}));
+                k += 1;
+            }
+        }
         // coin tossing against an equivocating party
         for e in 0..(if tier == Tier::Quick { 24 } else { 400 }) {
             v.push(json!({"seed": seed, "k": k, "n": 3 + e % 3, "l": 1, "ands": 0, "dealer": false, "equiv": e}));
@@ -652,8 +686,12 @@ impl Check for C10 {
             seed: rng.random(),
             sched: sched(&mut rng, n),
             equivocate: None,
+            dealer_cheater: None,
         };
         let mut spec = spec;
+        if let Some(c) = case.get("dealer_cheater").and_then(|x| x.as_u64()) {
+            spec.dealer_cheater = Some(c as usize % n);
+        }
         if case.get("equiv").is_some() {
             let cheater = rng.random_range(0..n);
             let victim = (cheater + 1 + rng.random_range(0..n - 1)) % n;
@@ -663,6 +701,12 @@ impl Check for C10 {
         let (v, steps, checked) = c10_run(&spec);
         out.evals += 1;
         out.sim_steps += steps;
+        if spec.dealer_cheater.is_some() {
+            out.count("dealer_runs_with_a_forged_submission", 1);
+            out.distinct.push(entropy::mix(n as u64, 0xdea1, spec.dealer_cheater.unwrap() as u64));
+            out.violations.extend(v);
+            return out;
+        }
         if spec.equivocate.is_some() {
             out.count(if spec.equivocate.as_ref().unwrap().scripted { "equivocating_coin_toss_runs(scripted cheater)" } else { "equivocating_coin_toss_runs(live cheater)" }, 1);
             out.count("equivocating_coin_toss:honest_parties_that_finished", checked);
@@ -1010,6 +1054,38 @@ fn c06_fashare_run(spec: &PreSpec) -> (Vec<Violation>, u64, u64) {
     cfg.max_steps = 5_000_000;
     let res = sim::run(&cfg, Arc::new(PreTask { spec: spec.clone() }));
     let mut looked = 0u64;
+    // the OT-extension matrix: row_j = G(k0_j) ^ G(k1_j) ^ r, where r holds the receiver's private
+    // choice bits (its mask shares). If the keystream G has internal structure (a block repeated at
+    // a fixed distance), row_j[b] ^ row_j[b+d] is the same for all 128 rows and equals r[b] ^ r[b+d].
+    for m in res.transcript.iter().filter(|m| m.phase == "ALSZ_OT_setup") {
+        let Ok(V::Vec(rows, _)) = schema::decode_msg("ALSZ_OT_setup", &m.data) else { continue };
+        let rows: Vec<Vec<u8>> = rows.iter().map(|r| if let V::Vec(bs, _) = r { bs.iter().map(|b| if let V::U8(x) = b { *x } else { 0 }).collect() } else { vec![] }).collect();
+        if rows.len() < 16 || rows[0].len() < 32 || rows.iter().any(|r| r.len() != rows[0].len()) {
+            continue;
+        }
+        let blocks = rows[0].len() / 16;
+        looked += 1;
+        'scan: for d in 1..blocks.min(33) {
+            for b in 0..(blocks - d) {
+                let x0: Vec<u8> = (0..16).map(|i| rows[0][16 * b + i] ^ rows[0][16 * (b + d) + i]).collect();
+                if rows.iter().all(|r| (0..16).all(|i| r[16 * b + i] ^ r[16 * (b + d) + i] == x0[i])) {
+                    v.push(viol(
+                        "ot-matrix-reveals-choice-bits",
+                        "ot-matrix-reveals-choice-bits",
+                        format!(
+                            "'ALSZ_OT_setup' {}->{} (message #{} of the link, {} rows of {} bytes): block {b} xor block {} is the same in every row - the pads of the two blocks coincide, so the value is the XOR of the sender's private choice bits {}..{} and {}..{}",
+                            m.from, m.to, m.idx, rows.len(), rows[0].len(), b + d, 128 * b, 128 * b + 127, 128 * (b + d), 128 * (b + d) + 127
+                        ),
+                        &sv,
+                    ));
+                    break 'scan;
+                }
+            }
+        }
+    }
+    if !v.is_empty() {
+        return (v, res.steps, looked);
+    }
     for p in 0..spec.n {
         let End::Ok(b) = &res.ends[p] else {
             v.push(viol("preprocessing-failed", "preprocessing-failed:c06", format!("party {p} ended with {}", res.ends[p].summary()), &sv));
@@ -1065,7 +1141,7 @@ impl Check for C06 {
         "exploration"
     }
     fn rule(&self) -> String {
-        "each case fixes a configuration (n in {2,3}) and executes it N times per input value (N=200 quick, 2000 thorough; fresh coins and schedule seed each) with all input bits 0 resp. 1; from the transcript alone, for every input wire: b = decoded 'masked inputs' bit xor the bits the other parties sent to the owner in 'wire shares'; the count of b=1 must lie within 6.5 sigma of N/2 for input 0 and input 1 alike. Canary cases: a party with 128 random input bits, its outgoing traffic scanned for the run as 128 bool bytes, as 16 packed bytes in both bit orders and as a run in the decoded bool stream. Wide configurations (129 input wires) run under the balance test too, and there the vector of a party's own shares of the masks of its own input wires must not appear in its traffic, and the one-time pads of the half-authenticated AND (probed) must be fresh: no run of more than 64 equal pad bits, balanced overall. All probed global keys, and all own-mask vectors of >= 64 bits, must be pairwise distinct over all runs and parties. Secret randomness probed at its point of use (KOS choice-bit padding, OT-extension base key and seed pairs, base-OT sender scalar): every value has the byte diversity of random data and no 16-byte block of any of them occurs twice - at the same or another site, at the same or another party, in the same or another execution of the group. fashare level (n in 2..4, l in {1,2,3,7,40,128,129,1000}): none of the MACs a party holds on the shares fashare returns to it, and none of the keys it holds for the others' returned shares, appears at any byte offset (either byte order) in anything it sent - the consistency round opens only the RHO extra shares. evaluations = simulated runs; distinct = (configuration, run) coins".into()
+        "each case fixes a configuration (n in {2,3}) and executes it N times per input value (N=200 quick, 2000 thorough; fresh coins and schedule seed each) with all input bits 0 resp. 1; from the transcript alone, for every input wire: b = decoded 'masked inputs' bit xor the bits the other parties sent to the owner in 'wire shares'; the count of b=1 must lie within 6.5 sigma of N/2 for input 0 and input 1 alike. Canary cases: a party with 128 random input bits, its outgoing traffic scanned for the run as 128 bool bytes, as 16 packed bytes in both bit orders and as a run in the decoded bool stream. Wide configurations (129 input wires) run under the balance test too, and there the vector of a party's own shares of the masks of its own input wires must not appear in its traffic, and the one-time pads of the half-authenticated AND (probed) must be fresh: no run of more than 64 equal pad bits, balanced overall. All probed global keys, and all own-mask vectors of >= 64 bits, must be pairwise distinct over all runs and parties. Secret randomness probed at its point of use (KOS choice-bit padding, OT-extension base key and seed pairs, base-OT sender scalar): every value has the byte diversity of random data and no 16-byte block of any of them occurs twice - at the same or another site, at the same or another party, in the same or another execution of the group. fashare level (n in 2..4, l in {1,2,3,7,40,128,129,1000}): none of the MACs a party holds on the shares fashare returns to it, and none of the keys it holds for the others' returned shares, appears at any byte offset (either byte order) in anything it sent - the consistency round opens only the RHO extra shares; and the rows of every OT-extension matrix ('ALSZ_OT_setup', up to 2428 columns) have no block pair whose XOR is the same in all rows (a keystream that repeats a block would expose the XOR of private choice bits). evaluations = simulated runs; distinct = (configuration, run) coins".into()
     }
     fn assumptions(&self) -> Vec<String> {
         vec![
@@ -1098,13 +1174,14 @@ impl Check for C06 {
                 let n = 2 + (k as usize + j) % 3;
                 let spec = PreSpec {
                     n,
-                    l: [1usize, 2, 3, 7, 40, 128, 129, 1000][rng.random_range(0..8)],
+                    l: if j == 0 { 1000 } else { [1usize, 2, 3, 7, 40, 128, 129, 1000, 2100][rng.random_range(0..9)] },
                     ands: 0,
                     dealer: false,
                     cap: [0, 1, 2][rng.random_range(0..3)],
                     seed: rng.random(),
                     sched: sched(&mut rng, n),
                     equivocate: None,
+                    dealer_cheater: None,
                 };
                 cx.begin(&json!({"fashare": spec}));
                 let (v, steps, looked) = c06_fashare_run(&spec);
